@@ -343,8 +343,8 @@ def run_engine_fixture(chk, rid="engine-fixture"):
                 chk.ob(rid, f"idiom {name}: {len(res.sites) - len(bad)} of {len(res.sites)} site(s) proved", not bad and bool(res.sites),
                        key=f"idiom|{name}", file=b.file, line=b.lo, fn=b.path,
                        detail="a standard safe idiom is no longer proved: " + "; ".join(s["why"] for s in bad)[:200])
-        chk.floor(rid, "traps", nb, 35)
-        chk.floor(rid, "safe idioms", ng, 22)
+        chk.floor(rid, "traps", nb, 37)
+        chk.floor(rid, "safe idioms", ng, 23)
         # the loop census on its own fixtures
         from ..loops import collect_loops
         lsites, _ = collect_loops(facts, [facts.crates[0]])
@@ -363,8 +363,8 @@ def run_engine_fixture(chk, rid="engine-fixture"):
                 chk.ob(rid, f"loop idiom {name}: {sum(1 for s in ss if s['ok'])} of {len(ss)} loop(s) paced", all(s["ok"] for s in ss),
                        key=f"loopidiom|{name}", file=ss[0]["body"].file, line=ss[0]["line"], fn=ss[0]["body"].path,
                        detail="a standard terminating loop is no longer recognised: " + "; ".join(s["why"] for s in ss if not s["ok"])[:200])
-        chk.floor(rid, "loop traps", nlb, 7)
-        chk.floor(rid, "loop idioms", nlg, 4)
+        chk.floor(rid, "loop traps", nlb, 9)
+        chk.floor(rid, "loop idioms", nlg, 5)
     finally:
         if "saved_pi" in locals():
             intervals.PARAM_INFO = saved_pi
